@@ -185,6 +185,77 @@ func buildNative() *nativeTwin {
 	return nt
 }
 
+// raceConfirm replays a vector concurrently (8 goroutines x 200 runs) in
+// a twin built with -race and reports whether the race detector flags an
+// access at loc ("file.go:123").  Used for C12/no-use-after-release,
+// whose native witness is a data race, not a wrong result.
+func (nt *nativeTwin) raceConfirm(in nativeIn, loc string) (bool, string) {
+	if nt.err != nil {
+		return false, nt.err.Error()
+	}
+	bin := filepath.Join(nt.dir, "native-race")
+	if _, err := os.Stat(bin); err != nil {
+		cmd := exec.Command("go", "build", "-race", "-tags", "verif", "-overlay", filepath.Join(nt.dir, "overlay.json"), "-o", bin, "./zzverif/nativemain")
+		cmd.Dir = repoDir
+		cmd.Env = append(os.Environ(), "GOFLAGS=-mod=mod", "GOPROXY=off", "GOSUMDB=off", "GOTOOLCHAIN=local", "GOWORK=off", "GOCACHE="+goCache(), "CGO_ENABLED=1")
+		if out, err := cmd.CombinedOutput(); err != nil {
+			return false, fmt.Sprintf("race build failed: %v %s", err, out)
+		}
+	}
+	f := filepath.Join(nt.dir, fmt.Sprintf("race-%d.jsonl", time.Now().UnixNano()))
+	b, _ := json.Marshal(in)
+	os.WriteFile(f, append(b, '\n'), 0644)
+	defer os.Remove(f)
+	cmd := exec.Command(bin, "-race", f)
+	cmd.Env = append(os.Environ(), "GORACE=halt_on_error=0")
+	var stderr strings.Builder
+	cmd.Stderr = &stderr
+	done := make(chan struct{})
+	go func() { cmd.Output(); close(done) }()
+	select {
+	case <-done:
+	case <-time.After(180 * time.Second):
+		if cmd.Process != nil {
+			cmd.Process.Kill()
+		}
+		<-done
+		return false, "race replay timeout"
+	}
+	msg := stderr.String()
+	if !strings.Contains(msg, "DATA RACE") {
+		return false, "no race reported"
+	}
+	if loc != "" && !strings.Contains(msg, loc) {
+		return false, "race reported elsewhere"
+	}
+	// first report mentioning loc
+	for _, rep := range strings.Split(msg, "==================") {
+		if strings.Contains(rep, "DATA RACE") && strings.Contains(rep, loc) {
+			lines := strings.Split(strings.TrimSpace(rep), "\n")
+			if len(lines) > 12 {
+				lines = lines[:12]
+			}
+			return true, "race: " + strings.Join(lines, " / ")
+		}
+	}
+	return true, "race at " + loc
+}
+
+// raceLoc extracts "file.go:123" from a no-use-after-release message.
+func raceLoc(msg string) (string, bool) {
+	if !strings.Contains(msg, "/no-use-after-release") {
+		return "", false
+	}
+	if i := strings.Index(msg, " at="); i >= 0 {
+		l := msg[i+4:]
+		if j := strings.IndexByte(l, ' '); j >= 0 {
+			l = l[:j]
+		}
+		return l, true
+	}
+	return "", true
+}
+
 func goCache() string {
 	if c := os.Getenv("GOCACHE"); c != "" {
 		return c
@@ -573,6 +644,7 @@ func checkMain(args []string) int {
 	}
 	sort.Strings(gorder)
 	nViol, nKnown, nUnconfirmed := 0, 0, 0
+	raceConfirmed, raceAttempts := map[string]int{}, 0
 	knownPrinted := map[string]bool{}
 	var violLines []string
 	replayN := 0
@@ -586,7 +658,22 @@ func checkMain(args []string) int {
 		nativeOutcome := ""
 		// up to 4 native attempts: Go's map iteration order and the real
 		// sync.Pool are not deterministic
-		for attempt := 0; attempt < 4 && confirmed < 0; attempt++ {
+		if loc, isRace := raceLoc(g.recs[0].v.Msg); isRace {
+			// the native witness is probabilistic and costs ~1 s: at most 3
+			// confirmed reports per location and 24 attempts per check; further
+			// groups at a confirmed location add nothing and are dropped
+			if raceConfirmed[loc] >= 3 || raceAttempts >= 24 {
+				continue
+			}
+			raceAttempts++
+			ok, what := nt.raceConfirm(ins[0], loc)
+			nativeOutcome = what
+			if ok {
+				confirmed = 0
+				raceConfirmed[loc]++
+			}
+		}
+		for attempt := 0; attempt < 4 && confirmed < 0 && !strings.Contains(g.recs[0].v.Msg, "/no-use-after-release"); attempt++ {
 			// one process per vector: no state carried over between replays
 			outs, err := nt.runSingles(ins)
 			if err != nil {
@@ -623,6 +710,9 @@ func checkMain(args []string) int {
 		nViol++
 		replayN++
 		rf := replayFile{Property: id, Harness: vr.ob.Harness, Args: vr.ob.Args, Vector: vr.v.Vector, Names: vr.v.Names, Msg: vr.v.Msg, Props: spec.Props, Kind: "assert", Native: nativeOutcome}
+		if _, isRace := raceLoc(vr.v.Msg); isRace {
+			rf.Kind = "race"
+		}
 		path := filepath.Join(verifDir, "replays", fmt.Sprintf("%s-%d.json", id, replayN))
 		b, _ := json.MarshalIndent(rf, "", " ")
 		os.WriteFile(path, b, 0644)
@@ -945,6 +1035,17 @@ func replayMain(args []string) int {
 		return 2
 	}
 	ins := []nativeIn{{rf.Harness, rf.Args, rf.Vector, rf.Props}}
+	if rf.Kind == "race" {
+		loc, _ := raceLoc(rf.Msg)
+		ok, what := nt.raceConfirm(ins[0], loc)
+		fmt.Printf("concurrent native run (8 goroutines x 200, -race): harness=%s args=%v vector=%v: %s\n", rf.Harness, rf.Args, rf.Vector, what)
+		if ok {
+			fmt.Printf("VIOLATION property=%s replay=%s\n", rf.Property, args[0])
+			return 1
+		}
+		fmt.Println("not reproduced on the current tree")
+		return 0
+	}
 	if rf.Kind == "constancy" {
 		ins = append(ins, nativeIn{rf.Harness, rf.Args, rf.Vector2, rf.Props})
 	}
